@@ -25,8 +25,10 @@ RULE = (
     "exhaustive sweep: dims in {1..3}^d (quick) / {1..4}^d (thorough), d=1..3 incl. length-1 axes, both orders, "
     "both axes_reversed, all axes_increase vectors, both data locations, for UniformGrid, RectilinearGrid "
     "(irregular dyadic axes, given decreasing where axes_increase is false) and EsriGrid (all ncols,nrows, both orders), "
-    "plus malformed constructions (non-monotonic axes, wrong lengths) and random read/set/copy sequences on the "
-    "data_shape/data_size memo; non-trivial = the layout differs from the default (order F, not reversed, all "
+    "plus malformed constructions (non-monotonic axes, wrong lengths) and random sequences on living grid objects "
+    "(reads of data_shape, data_size, data_points, data_axes, points, cells, cell_centers, cell_axes, "
+    "to_unstructured().data_points/.data_shape; accepted and rejected data_location changes; shallow and deep copies), "
+    "every read compared with the model and with a freshly built grid at the current location; non-trivial = the layout differs from the default (order F, not reversed, all "
     "increasing, CELLS) in at least one flag and the grid has >= 2 data elements, or (memo case) a location change "
     "after a read; distinct by canonical case hash"
 )
@@ -98,6 +100,26 @@ def _sweep(nmax):
     return out
 
 
+PROPS = {"data_axes": 0, "points": 1, "cell_centers": 2, "u_data_points": 3, "cell_axes": 4, "cells": 5, "u_data_shape": 6}
+
+
+def read_prop(o, name):
+    """public property `name` of a living grid object, canonicalised"""
+    if name == "data_axes":
+        return qmat(list(o.data_axes))
+    if name == "points":
+        return qmat(o.points)
+    if name == "cell_centers":
+        return qmat(o.cell_centers)
+    if name == "u_data_points":
+        return qmat(o.to_unstructured().data_points)
+    if name == "cell_axes":
+        return qmat(list(o.cell_axes))
+    if name == "cells":
+        return nmat(o.cells)
+    return nrow(o.to_unstructured().data_shape)
+
+
 def _memo_case(rng):
     cls = rng.choice(["uniform", "rect", "rect", "esri"])
     d = rng.choice([1, 2, 2, 3])
@@ -112,12 +134,14 @@ def _memo_case(rng):
     for _ in range(rng.randint(3, 14)):
         k = rng.randrange(nobj) if rng.random() < 0.95 else nobj + rng.randrange(2)
         r = rng.random()
-        if r < 0.25:
+        if r < 0.15:
             ops.append(["shape", k])
-        elif r < 0.45:
+        elif r < 0.27:
             ops.append(["size", k])
-        elif r < 0.55:
+        elif r < 0.42:
             ops.append(["points", k])
+        elif r < 0.57:
+            ops.append(["prop", k, rng.choice(sorted(PROPS))])
         elif r < 0.85:
             ops.append(["set", k, rng.choice(["CELLS", "POINTS"])])
         else:
@@ -145,6 +169,13 @@ CORPUS = [
           [["size", 0], ["copy", 0, False], ["set", 1, "CELLS"], ["size", 1], ["shape", 1], ["shape", 0], ["size", 0]]),
     _memo(_grid_case("esri", (2, 3), "C", True, None, "CELLS"),
           [["shape", 0], ["set", 0, "POINTS"], ["shape", 0], ["set", 0, "CELLS"], ["size", 0], ["shape", 3]]),
+    # seeded defect C16_d: data_points read once, location switched on the object / on a copy, read again
+    _memo(_U23, [["points", 0], ["set", 0, "POINTS"], ["points", 0], ["shape", 0], ["prop", 0, "u_data_points"],
+                 ["copy", 0, False], ["set", 1, "CELLS"], ["points", 1], ["prop", 1, "data_axes"], ["points", 0]]),
+    _memo(_grid_case("rect", (3, 2, 2), "C", True, (False, True, True), "POINTS"),
+          [["points", 0], ["prop", 0, "data_axes"], ["prop", 0, "cells"], ["copy", 0, True], ["set", 1, "CELLS"],
+           ["points", 1], ["prop", 1, "data_axes"], ["prop", 1, "u_data_shape"], ["prop", 1, "cell_centers"],
+           ["set", 0, "CELLS"], ["points", 0], ["prop", 0, "u_data_points"]]),
     # the grids of tests/data/test_grid_spec.py
     _grid_case("uniform", (3, 2), "C", False, (True, False), "CELLS"),
     _grid_case("uniform", (3, 2, 2), "F", False, (True, True, True), "CELLS"),
@@ -170,7 +201,7 @@ def generate(rng, tier):
     cases = list(CORPUS)
     if tier == "quick":
         cases += _sweep(3)
-        nmemo, nbig = 300, 20
+        nmemo, nbig = 500, 20
     else:
         cases += _sweep(4)
         nmemo, nbig = 3000, 300
@@ -275,6 +306,8 @@ def run_impl(case):
             res.append({"r": "size", "v": int(o.data_size), "fresh": int(build_grid(case, locs[k]).data_size)})
         elif op[0] == "points":
             res.append({"r": "points", "v": qmat(o.data_points), "fresh": qmat(build_grid(case, locs[k]).data_points)})
+        elif op[0] == "prop":
+            res.append({"r": "prop", "p": op[2], "v": read_prop(o, op[2]), "fresh": read_prop(build_grid(case, locs[k]), op[2])})
         elif op[0] == "set":
             try:
                 o.data_location = _loc(op[2])
@@ -332,6 +365,8 @@ def _mop(op):
         return C("MSize", N(op[1]))
     if op[0] == "points":
         return C("MPoints", N(op[1]))
+    if op[0] == "prop":
+        return C("MProp", N(PROPS[op[2]]), N(op[1]))
     if op[0] == "set":
         return C("MSet", N(op[1]), B(op[2] == "POINTS"))
     return C("MCopy", N(op[1]))
@@ -350,6 +385,9 @@ def _mres(r):
         return C("RSize", N(r["v"]))
     if r["r"] == "points":
         return C("RPoints", QM(r["v"]))
+    if r["r"] == "prop":
+        p = PROPS[r["p"]]
+        return C("RQ", N(p), QM(r["v"])) if p < 5 else C("RN", N(p), NM(r["v"]))
     if r["r"] == "set":
         return C("RSet", B(r["ok"]))
     if r["r"] == "copy":
@@ -451,8 +489,10 @@ def _monitor(case, obs):
     if case["kind"] == "grid":
         return _monitor_grid(case, obs)
     for i, (op, r) in enumerate(zip(case["ops"], obs["res"])):
-        if r["r"] in ("shape", "size", "points") and r["v"] != r["fresh"]:
-            return (f"op {i} {op}: data_{r['r']} = {r['v']} but a fresh grid at the current location gives {r['fresh']}")
+        if r["r"] in ("shape", "size", "points", "prop") and r["v"] != r["fresh"]:
+            what = r["p"] if r["r"] == "prop" else "data_" + r["r"]
+            return (f"op {i} {op}: {what} = {str(r['v'])[:200]} but a fresh grid at the current location gives "
+                    f"{str(r['fresh'])[:200]}")
         if r["r"] == "set" and r["ok"] and r["now"] != op[2]:
             return f"op {i} {op}: data_location is {r['now']} after a successful set"
     return None
@@ -474,7 +514,7 @@ def nontrivial(case, obs):
         return nondefault and obs["nat"][2][0][0] >= 2
     seen_read = False
     for op, r in zip(case["ops"], obs["res"]):
-        if r["r"] in ("shape", "size"):
+        if r["r"] in ("shape", "size", "points", "prop"):
             seen_read = True
         if r["r"] == "set" and r["ok"] and seen_read:
             return True
